@@ -5,6 +5,7 @@
 open Model
 open X_fops
 
+let rec nat_of_int n = if n <= 0 then O else S (nat_of_int (n - 1))
 let hexl l = if l = [] then "-" else String.concat "," (List.map hex l)
 
 let () =
@@ -62,6 +63,33 @@ let () =
            let xs = nflist n in
            let r = abmd_run fops k stop dec { ab_init = false; ab_ref = 0.0 } xs in
            Printf.printf "%s\n" (String.concat " ; " (List.map (fun ((e, f), rf) -> hex e ^ " " ^ hex f ^ " " ^ hex rf) r))
+         | "HIST" ->
+           (* HIST k sigma lower width nref ref.. nx x.. -> "E ; f1,f2,.. ; p1,p2,.." *)
+           let k = nf () in let sigma = nf () in let lower = nf () in let width = nf () in
+           let nr = ni () in let refp = nflist nr in
+           let nx = ni () in let xs = nflist nx in
+           let pi = 4.0 *. atan 1.0 in
+           let e = hist_energy fops k pi sigma lower width refp xs in
+           let f = hist_forces fops k pi sigma lower width refp xs in
+           let p = hist_p fops pi sigma lower width (nat_of_int nr) xs in
+           Printf.printf "%s ; %s ; %s\n" (hex e) (hexl f) (hexl p)
+         | "MAN" ->
+           (* MAN kind(v3|uv|q) k w lambda c0.. c1.. x.. -> "energy ; interpolated centre" ; the energy is taken at the
+              interpolated centre; quaternion centres are not interpolated by the model (lambda must be 0: centre c0) *)
+           let kind = next () in
+           let k = nf () in let w = nf () in let lam = nf () in
+           let pi = 4.0 *. atan 1.0 in
+           (match kind with
+            | "q" ->
+              let q () = let a = nf () in let b = nf () in let c = nf () in let d = nf () in (((a, b), c), d) in
+              let c0 = q () in let _ = q () in let x = q () in
+              Printf.printf "%s ; -\n" (hex (harm_potential_d2 fops k w (q_dist2 fops pi x c0)))
+            | _ ->
+              let v () = let a = nf () in let b = nf () in let c = nf () in ((a, b), c) in
+              let c0 = v () in let c1 = v () in let x = v () in
+              let ((cx, cy), cz) = if kind = "uv" then uv_interp fops c0 c1 lam else v3_interp fops c0 c1 lam in
+              let d2 = if kind = "uv" then uv_dist2 fops x ((cx, cy), cz) else v3_dist2 fops x ((cx, cy), cz) in
+              Printf.printf "%s ; %s\n" (hex (harm_potential_d2 fops k w d2)) (hexl [cx; cy; cz]))
          | _ -> Printf.printf "?\n")
       end
     done
